@@ -2,6 +2,7 @@ import Np.Proofs.MapCoef
 import Np.Proofs.Det
 import Np.Model.Maps
 import Np.Proofs.DetPoly
+import Np.Proofs.Reduce
 /-! C10 — reductions and linear algebra equal finite sums and products of elements: property theorems -/
 namespace Np.Props.C10
 open MvPolynomial
@@ -73,5 +74,35 @@ theorem det_array_is_det (rc rn : Bool) (n : Nat) (rows : List (List (Poly (Vec 
       denAt d k = Matrix.det (Matrix.of fun (i j : Fin n) => denAt ((rows[i.val]!)[j.val]!) k) :=
   detPoly_elem rc rn n rows hl hrow hwf
 end detexec
+
+/-! ### the executable reductions of the model, element by element (Np/Proofs/Reduce.lean) -/
+section reduceexec
+open Shape
+variable {R : Type} [CommSemiring R] [BEq R] [LawfulBEq R]
+
+/-- **sum, cumsum, diff, ediff1d, mean** (every axis / keepdims / n): element `i` of `linearOp` is the weighted sum of
+the elements of `a` listed in row `i` of the weight matrix; the result is well-formed with the requested shape -/
+theorem linear_is_weighted_sum (rc rn : Bool) (a : Arr R) (ha : a.WF) (outShape : List Nat)
+    (W : List (List (Nat × R))) :
+    (linearOp rc rn a outShape W).WF ∧ (linearOp rc rn a outShape W).shape = outShape ∧
+    ∀ i : Fin (size outShape),
+      (linearOp rc rn a outShape W).elem i = ((W.getD i.val []).map fun jw => C jw.2 * elemD a jw.1).sum :=
+  ⟨linearOp_WF rc rn a ha outShape W, rfl, fun i => linearOp_elem rc rn a ha outShape W i⟩
+
+/-- **inner, outer, matmul**: `bilinearOp` always succeeds on well-formed operands and element `i` is
+`Σ_t a[ia(i,t)] · b[ib(i,t)]` -/
+theorem bilinear_is_sum_of_products (rc rn : Bool) (a b : Arr R) (ha : a.WF) (hb : b.WF) (outShape : List Nat)
+    (pairs : List (List Nat × List Nat)) :
+    ∃ r : Arr R, bilinearOp rc rn a b outShape pairs = some r ∧ r.WF ∧ r.shape = outShape ∧
+      ∀ i : Fin (size r.shape),
+        r.elem i = (pairs.map fun p => gatheredElem a p.1 i.val * gatheredElem b p.2 i.val).sum :=
+  bilinearOp_elem rc rn a b ha hb outShape pairs
+
+/-- **prod along axes**: `prodOp` always succeeds and element `i` is `Π_t a[g(i,t)]` -/
+theorem prod_is_product (rc rn : Bool) (a : Arr R) (ha : a.WF) (outShape : List Nat) (groups : List (List Nat)) :
+    ∃ r : Arr R, prodOp rc rn a outShape groups = some r ∧ r.WF ∧ r.shape = outShape ∧
+      ∀ i : Fin (size r.shape), r.elem i = (groups.map fun g => gatheredElem a g i.val).prod :=
+  prodOp_elem rc rn a ha outShape groups
+end reduceexec
 
 end Np.Props.C10
